@@ -214,7 +214,9 @@ CHECKS.update({
         engine='adminop',
         technique='TLA+ spec AdminOp.tla (request machine, symbolic signature lists, sender/nonce binding, end-of-block application on replicas) '
                   'exhaustively model-checked with TLC (incl. every signature list up to length 3/4); graph edge covers and random walks replayed '
-                  'on two real replicas (real Angine assembly, EVMApp, 0xfe precompile, AdminOp plugin, State.ApplyBlock/EndBlock)',
+                  'on two real replicas (real Angine assembly, EVMApp, 0xfe precompile, AdminOp plugin, State.ApplyBlock/EndBlock); '
+                  'requests reach the precompile through the Admin contract, by a direct transaction, or from a contract of the '
+                  'submitter\'s making that STATICCALLs it; batches of several accepted changes in one block',
         level=('model_checking',
                'Authorisation by distinct current signers > 2/3, sender/nonce binding, replay / direct-call / query attempts and uniform '
                'next-set application are decided by TLC on the bounded spec and checked edge by edge against the real code: reply class, '
